@@ -117,7 +117,7 @@ def broken_theorems(log):
 def proof_times(make_out):
     """`time "name" tac` lines printed by the Libfuncs proofs when they are (re)built."""
     t = {}
-    for m in re.finditer(r"Tactic call ([A-Za-z0-9_]+) ran for ([0-9.]+) secs", make_out or ""):
+    for m in re.finditer(r"Tactic call\s+([A-Za-z0-9_]+)\s+ran\s+for\s+([0-9.]+)\s+secs", make_out or ""):
         t[m.group(1)] = float(m.group(2))
     cache = os.path.join(vlib.OUT, "libfunc_proof_times.json")
     old = {}
